@@ -655,7 +655,8 @@ def oracle_xml(R, net, stdevs):
                     chk(f"{tag} err-obs = v/(qrr p)", o["err-obs"], em, atol=6e-4 + 1e-9 / (qvv * p), rtol=rel, key="err")
                     chk(f"{tag} err-adj = err-obs - v", o["err-adj"], em - v, atol=1.2e-3 + 1e-9 / (qvv * p), rtol=rel, key="err")
             n += 1
-            if (o["std-residual"] is None) != (o["f"] < 0.1):
+            # f is printed with 3 decimals: 0.0996 is printed as 0.100 (seen once in 12 000 networks)
+            if abs(o["f"] - 0.1) > 5.01e-4 and (o["std-residual"] is None) != (o["f"] < 0.1):
                 bad.append((f"{tag} std-residual present iff f >= 0.1", f"f={o['f']}"))
         else:
             chk(f"{tag} stdev with m0 = 0", o["stdev"], 0.0)
